@@ -9,6 +9,7 @@ does not exist or is in the wrong state is a recorded no-op.
 """
 
 import gc
+import json
 
 from . import msel
 from .env import canon, has_absent
@@ -83,6 +84,16 @@ def _walk_stmts(stmts):
                         for q in sub:
                             if isinstance(q, list) and q and isinstance(q[0], list):
                                 yield from _walk_stmts(q)
+
+
+def _flat_targets(t):
+    if isinstance(t, str):
+        return [t]
+    if t[0] == "*":
+        return [t[1]]
+    if t[0] == "t":
+        return [n for u in t[1] for n in _flat_targets(u)]
+    return []
 
 
 def canon_event(data):
@@ -346,11 +357,17 @@ class Engine:
                 # unspecified (the failure aborts _push); completion at most once still holds
                 if st["completed"] > 1:
                     self.violate("C17.completed_once", {"probe": rec.id, "stage": st["kind"], "completed": st["completed"]})
+                if st["kind"] in ("min", "max", "first", "last", "sum") and not st["next"]:
+                    # how many events reached this reduction before the failure is unspecified:
+                    # it may well be empty, and then deactivation reports that
+                    rec.expect_exit_error = True
                 continue
             vals = [d[st["cap"]] for _, d in rec.exp_all[st["since"]:] if st["cap"] in d]
             k = st["kind"]
             want_next, want_err = None, False
-            if k == "accum":
+            if k == "whole":
+                want_next = [1] * len(rec.exp_all[st["since"]:])
+            elif k == "accum":
                 want_next = vals
             elif k == "map":
                 want_next = [v + 1 for v in vals]
@@ -622,6 +639,17 @@ class Engine:
     def compare_decl(self, op, r):
         """C16 verdict for one call: model (traced twin with decl hook) vs ptera."""
         m, s_ = r["trc"], r["sys"]
+        if not self.instrumented(op.get("fn")):
+            # nothing of ptera is involved in this call: plain Python decides
+            self.sim.reach("declaration_in_uninstrumented_function")
+            return
+
+        def same_names(log):
+            # the model's stand-in for ptera's name error, as seen by the program's own
+            # context managers / handlers (they log the class name of what passes through)
+            return json.loads(json.dumps(log).replace('"ModelNameError"', '"PteraNameError"'))
+
+        m = dict(m, log=same_names(m["log"]))
         mo, so = m["out"], s_["out"]
         if mo[0] == "exc" and mo[1][1] == "ModelNameError":
             fn, var = mo[1][2]
@@ -725,6 +753,21 @@ class Engine:
                 return False
         return True
 
+    def instrumented(self, fn):
+        """Is anything of ptera involved when ``fn`` is called now: tooled in place / a tooled
+        copy is what gets called, or an active probe names it."""
+        if fn in self.tooled_inplace or fn in getattr(self.sim.v["sys"], "tooled", {}):
+            return True
+        for pid in self.order:
+            rec = self.probes[pid]
+            if rec.obj is None:
+                continue
+            for sel in rec.spec["sels"]:
+                for lv in sel["levels"]:
+                    if lv["fn"] == fn or any(sb["fn"] == fn for sb in msel.walk_sibs(lv)):
+                        return True
+        return False
+
     def overriding_active(self):
         return any(self.probes[p].spec.get("how") for p in self.order)
 
@@ -782,18 +825,27 @@ class Engine:
                 st["raised"] = True
                 self.sim.reach("handler_raises")
                 raise RuntimeError("subscriber failure injected")
-            st["next"].append(canon(v))
+            st["next"].append(1 if st["kind"] == "whole" else canon(v))
 
         def on_error(e, st=st):
             st["errors"].append(canon(e))
 
         def on_completed(st=st):
             st["completed"] += 1
+            if op.get("abort_on_complete") and not st.get("post"):
+                # the user's completion handler is interrupted (KeyboardInterrupt / SystemExit):
+                # deactivation is aborted by it, but must still have taken the probe out
+                st["raised"] = st["raised_seen"] = True
+                self.sim.reach("completion_interrupted")
+                raise {"kbd": KeyboardInterrupt, "exit": SystemExit}[op["abort_on_complete"]]("injected")
 
-        src = rec.obj["?" + op["cap"]]  # non-strict: other selectors' events lack the key
         k = op["kind"]
+        # "whole": a subscriber of the probe itself (every event / record, whatever it carries)
+        src = rec.obj if k == "whole" else rec.obj["?" + op["cap"]]  # non-strict: other selectors' events lack the key
         try:
-            if k in ("min", "max", "count", "sum", "last", "first"):
+            if k == "whole":
+                pass
+            elif k in ("min", "max", "count", "sum", "last", "first"):
                 src = getattr(src, k)()
             elif k == "map":
                 src = src.map(lambda v: v + 1)
@@ -935,6 +987,8 @@ class Engine:
                         # deliveries of this operation are unspecified; whatever
                         # arrived is what later reductions must be computed from
                         rec.exp_all.extend((self.opi, d) for d in got)
+                        if op["op"] == "call" and any(st.get("raised") for st in rec.stages):
+                            self.check_brackets(rec, got, op)
                         continue
                     exp = self.expected_for(rec, ob["lo"], ob["hi"])
                     if self.sc.get("relax_inflight"):
@@ -958,6 +1012,49 @@ class Engine:
             f"{out[1][1] if out[0] == 'exc' else ''}:{self.active_sig()}"
         )
         return out
+
+    def check_brackets(self, rec, got, op):
+        """C06 under a failing subscriber: what the probe with the failing subscriber was handed
+        during a call that is over is still properly bracketed -- every delivered entry / iteration
+        begin has exactly one exit / iteration end after it.  (Its own events reach ``got`` before
+        they reach the failing subscriber; other probes may miss the one event being delivered
+        when the failure struck, so only this probe is judged.)"""
+        focus_vars = [sl["focus"]["var"] for sl in rec.spec["sels"] if sl.get("focus")]
+        # (a variable named by two selectors of the probe is reported twice: only singles are paired)
+        have = {v for v in focus_vars if focus_vars.count(v) == 1}
+        closing = {}
+        for v in have:
+            if v == "#enter" and "#exit" in have:
+                closing["#exit"] = "#enter"
+            elif v.startswith("#loop_") and "#endloop_" + v[6:] in have:
+                closing["#endloop_" + v[6:]] = v
+        # ``for a, b in``: the begin (and end) events of a and b are sent one after the other, a
+        # failure while the first is delivered pre-empts the second: such loops are left out
+        multi = set()
+        for sl in rec.spec["sels"]:
+            fnir = self.sim.fnir.get(sl["levels"][-1]["fn"])
+            for st in _walk_stmts(fnir["body"]) if fnir else ():
+                if st[0] == "for" and not isinstance(st[1], str):
+                    multi.update(u if isinstance(u, str) else "" for u in _flat_targets(st[1]))
+        closing = {c: o for c, o in closing.items() if not (o.startswith("#loop_") and o[6:] in multi)}
+        opening = set(closing.values())
+        if not opening or rec.spec.get("raw"):
+            return
+        self.sim.reach("brackets_checked_under_failing_subscriber")
+        depth = {o: 0 for o in opening}
+        for d in got:
+            for key in d:
+                if key in opening:
+                    depth[key] += 1
+                elif key in closing:
+                    # (the loop variables of one ``for a, b in`` delimit the same region, in no
+                    # stated order among themselves: pairs are balanced one by one)
+                    # an end without its begin is legitimate here: the failure may strike while the
+                    # first begin event of ``for a, b in`` is delivered, the second is then never sent
+                    depth[closing[key]] = max(0, depth[closing[key]] - 1)
+        left = sorted(o for o, n in depth.items() if n)
+        if left:
+            self.violate("C06.brackets", {"op": op, "probe": rec.id, "left open": left, "got": [list(x) for x in got]})
 
     def active_sig(self):
         return ",".join(
